@@ -5,8 +5,8 @@ import (
 	"go/types"
 	"math"
 	"regexp"
-	"time"
 	"strings"
+	"time"
 
 	"golang.org/x/tools/go/ssa"
 )
@@ -33,7 +33,7 @@ func init() {
 			return nil
 		},
 		zzPath + ".Assert": func(e *Exec, fn *ssa.Function, a []Value) Value {
-			e.check(a[0].(*Term), e.concStr(a[1], "assert label"))
+			e.check2(a[0].(*Term), e.concStr(a[1], "assert label"), false)
 			return nil
 		},
 		zzPath + ".Reach": func(e *Exec, fn *ssa.Function, a []Value) Value {
@@ -116,10 +116,10 @@ func init() {
 			return res
 		},
 		zzPath + ".NativeRepeat": func(e *Exec, fn *ssa.Function, a []Value) Value { return e.ts.Const(64, 1) },
-		zzPath + ".Go":          inZZGo,
-		zzPath + ".WaitThreads": inZZWaitThreads,
-		zzPath + ".Settle":      inZZSettle,
-		zzPath + ".Yield":       inZZYield,
+		zzPath + ".Go":           inZZGo,
+		zzPath + ".WaitThreads":  inZZWaitThreads,
+		zzPath + ".Settle":       inZZSettle,
+		zzPath + ".Yield":        inZZYield,
 		"context.WithCancel": func(e *Exec, fn *ssa.Function, a []Value) Value {
 			// the derived context is the parent itself; cancel is a no-op (the harness cancels the parent)
 			return TupleV{a[0], &FuncV{Name: "cancel", Native: func(e *Exec, args []Value) Value { return nil }}}
@@ -156,7 +156,7 @@ func init() {
 		},
 
 		zzPath + ".RetentionDaysRel": func(e *Exec, fn *ssa.Function, a []Value) Value { return FloatV{Opaque: true} },
-		zzPath + ".RetentionDays": func(e *Exec, fn *ssa.Function, a []Value) Value { return FloatV{Opaque: true} },
+		zzPath + ".RetentionDays":    func(e *Exec, fn *ssa.Function, a []Value) Value { return FloatV{Opaque: true} },
 		"(" + repoMod + "/config.Sweeper).RetentionDuration": func(e *Exec, fn *ssa.Function, a []Value) Value {
 			if t, ok := e.envState["retention"].(*Term); ok {
 				return t
@@ -237,8 +237,8 @@ func init() {
 			c := a[0].(*Cell).Fields[1]
 			return e.ts.Const(64, uint64(c.V.(SliceV).Len))
 		},
-		"(*strings.Builder).Grow":  func(e *Exec, fn *ssa.Function, a []Value) Value { return nil },
-		"(*strings.Builder).Reset": func(e *Exec, fn *ssa.Function, a []Value) Value { a[0].(*Cell).Fields[1].V = SliceV{}; return nil },
+		"(*strings.Builder).Grow":      func(e *Exec, fn *ssa.Function, a []Value) Value { return nil },
+		"(*strings.Builder).Reset":     func(e *Exec, fn *ssa.Function, a []Value) Value { a[0].(*Cell).Fields[1].V = SliceV{}; return nil },
 		"(*strings.Builder).copyCheck": func(e *Exec, fn *ssa.Function, a []Value) Value { return nil },
 
 		"math/bits.Len64": func(e *Exec, fn *ssa.Function, a []Value) Value { return e.bitsLen(a[0].(*Term)) },
@@ -278,24 +278,39 @@ func init() {
 		},
 
 		// ----- time -----
-		"time.Now":                 inTimeNow,
-		"time.Since":               func(e *Exec, fn *ssa.Function, a []Value) Value { return e.ts.Bin(OpSub, timeExt(e, inTimeNow(e, fn, nil)), timeExt(e, a[0])) },
-		"time.Until":               func(e *Exec, fn *ssa.Function, a []Value) Value { return e.ts.Bin(OpSub, timeExt(e, a[0]), timeExt(e, inTimeNow(e, fn, nil))) },
-		"time.Unix":                inTimeUnix,
-		"(time.Time).Sub":          func(e *Exec, fn *ssa.Function, a []Value) Value { return e.ts.Bin(OpSub, timeExt(e, a[0]), timeExt(e, a[1])) },
-		"(time.Time).Add":          func(e *Exec, fn *ssa.Function, a []Value) Value { return mkTime(e, e.ts.Bin(OpAdd, timeExt(e, a[0]), a[1].(*Term))) },
-		"(time.Time).After":        func(e *Exec, fn *ssa.Function, a []Value) Value { return e.ts.Cmp(OpSlt, timeExt(e, a[1]), timeExt(e, a[0])) },
-		"(time.Time).Before":       func(e *Exec, fn *ssa.Function, a []Value) Value { return e.ts.Cmp(OpSlt, timeExt(e, a[0]), timeExt(e, a[1])) },
-		"(time.Time).Equal":        func(e *Exec, fn *ssa.Function, a []Value) Value { return e.ts.Eq(timeExt(e, a[0]), timeExt(e, a[1])) },
-		"(time.Time).Compare":      func(e *Exec, fn *ssa.Function, a []Value) Value { x, y := timeExt(e, a[0]), timeExt(e, a[1]); return e.ts.Ite(e.ts.Cmp(OpSlt, x, y), e.ts.Const(64, ^uint64(0)), e.ts.Ite(e.ts.Eq(x, y), e.ts.Const(64, 0), e.ts.Const(64, 1))) },
-		"(time.Time).UnixNano":     func(e *Exec, fn *ssa.Function, a []Value) Value { return timeExt(e, a[0]) },
-		"(time.Time).IsZero":       func(e *Exec, fn *ssa.Function, a []Value) Value { return e.ts.Eq(timeExt(e, a[0]), e.ts.Const(64, 0)) },
-		"(time.Time).UTC":          func(e *Exec, fn *ssa.Function, a []Value) Value { return a[0] },
-		"(time.Time).Local":        func(e *Exec, fn *ssa.Function, a []Value) Value { return a[0] },
-		"(time.Time).Round":        func(e *Exec, fn *ssa.Function, a []Value) Value { return a[0] },
-		"(time.Time).Truncate":     func(e *Exec, fn *ssa.Function, a []Value) Value { return a[0] },
-		"(time.Time).Format": inTimeFormat,
-		"time.Parse":         inTimeParse,
+		"time.Now": inTimeNow,
+		"time.Since": func(e *Exec, fn *ssa.Function, a []Value) Value {
+			return e.ts.Bin(OpSub, timeExt(e, inTimeNow(e, fn, nil)), timeExt(e, a[0]))
+		},
+		"time.Until": func(e *Exec, fn *ssa.Function, a []Value) Value {
+			return e.ts.Bin(OpSub, timeExt(e, a[0]), timeExt(e, inTimeNow(e, fn, nil)))
+		},
+		"time.Unix": inTimeUnix,
+		"(time.Time).Sub": func(e *Exec, fn *ssa.Function, a []Value) Value {
+			return e.ts.Bin(OpSub, timeExt(e, a[0]), timeExt(e, a[1]))
+		},
+		"(time.Time).Add": func(e *Exec, fn *ssa.Function, a []Value) Value {
+			return mkTime(e, e.ts.Bin(OpAdd, timeExt(e, a[0]), a[1].(*Term)))
+		},
+		"(time.Time).After": func(e *Exec, fn *ssa.Function, a []Value) Value {
+			return e.ts.Cmp(OpSlt, timeExt(e, a[1]), timeExt(e, a[0]))
+		},
+		"(time.Time).Before": func(e *Exec, fn *ssa.Function, a []Value) Value {
+			return e.ts.Cmp(OpSlt, timeExt(e, a[0]), timeExt(e, a[1]))
+		},
+		"(time.Time).Equal": func(e *Exec, fn *ssa.Function, a []Value) Value { return e.ts.Eq(timeExt(e, a[0]), timeExt(e, a[1])) },
+		"(time.Time).Compare": func(e *Exec, fn *ssa.Function, a []Value) Value {
+			x, y := timeExt(e, a[0]), timeExt(e, a[1])
+			return e.ts.Ite(e.ts.Cmp(OpSlt, x, y), e.ts.Const(64, ^uint64(0)), e.ts.Ite(e.ts.Eq(x, y), e.ts.Const(64, 0), e.ts.Const(64, 1)))
+		},
+		"(time.Time).UnixNano": func(e *Exec, fn *ssa.Function, a []Value) Value { return timeExt(e, a[0]) },
+		"(time.Time).IsZero":   func(e *Exec, fn *ssa.Function, a []Value) Value { return e.ts.Eq(timeExt(e, a[0]), e.ts.Const(64, 0)) },
+		"(time.Time).UTC":      func(e *Exec, fn *ssa.Function, a []Value) Value { return a[0] },
+		"(time.Time).Local":    func(e *Exec, fn *ssa.Function, a []Value) Value { return a[0] },
+		"(time.Time).Round":    func(e *Exec, fn *ssa.Function, a []Value) Value { return a[0] },
+		"(time.Time).Truncate": func(e *Exec, fn *ssa.Function, a []Value) Value { return a[0] },
+		"(time.Time).Format":   inTimeFormat,
+		"time.Parse":           inTimeParse,
 		"regexp.MustCompile": func(e *Exec, fn *ssa.Function, a []Value) Value {
 			// the compiled expression is opaque; its (concrete) pattern is remembered
 			return &OpaqueV{T: fn.Signature.Results().At(0).Type(), Note: "regexp:" + e.concStr(a[0], "regexp pattern")}
